@@ -8,7 +8,8 @@ Claims, for every line in the bound (no newline):
      the result is an expectation of kind K (equal when empty) over exactly `expr`, optional ⇔ Q in {?,*},
      multiline ⇔ Q in {*,+} — or an error only for kind regex/escaped;
   3. otherwise (no such final group, including a final `()`): an `equal` expectation for the whole line, no quantifier.
-The canonical-rendering round trip (Rule::to_expression_string) is not covered."""
+  4. canonical rendering: parse(to_expression_string(parse(line))) keeps the quantifier and gives the same verdict on every probe
+     line (kinds equal / no-eol / escaped; glob and regex rendering is not covered)."""
 import itertools
 import random
 import re
@@ -113,7 +114,7 @@ def drive(ctx, args):
     e = r.fields[0]
     optional, multiline, rule = e.fields[0], e.fields[1], e.fields[2]
     while isinstance(rule, Agg) and rule.ty == "Box":
-        rule = rule.fields[0].loc.get()
+        rule = __import__('mir_exec').box_ref(rule).loc.get()
     return Agg("tuple", None, [SBool(True), optional, multiline, rule])
 
 
@@ -240,6 +241,89 @@ def h_grammar(max_u, max_free):
     return h
 
 
+# ---- canonical rendering round trip --------------------------------------------------------------------------
+
+RT_ALPHA = "a\t\\ ("
+
+
+def h_roundtrip(max_u):
+    """line → parse → e1 → to_expression_string(escaper) → parse → e2: same quantifier, same verdict on a probe line"""
+    from props.c09 import GenModels, rule_matches
+    from mir_models import utf8_bytes
+
+    def drive_rt(ctx, args):
+        """parse(line) → Expectation::to_expression_string → parse: both expectations' matches(probe)"""
+        prog = ctx.program
+        maker = get_maker(ctx)
+        parse = find_method(prog, "src/expectation.rs", "parse")
+        r1 = ctx.call(parse, [new_ref(maker), args[0]])
+        if r1.variant != "Ok":
+            return Agg("tuple", None, [SBool(False)])
+        e1 = r1.fields[0]
+        tes = prog.resolve_call("Expectation::to_expression_string")
+        text = ctx.call(tes, [new_ref(e1), new_ref(args[1])])
+        ctx.notes["rendered"] = list(as_str(text).chars)
+        r2 = ctx.call(parse, [new_ref(maker), Str(as_str(text).chars)])
+        if r2.variant != "Ok":
+            return Agg("tuple", None, [SBool(True), SBool(False)])
+        e2_ = r2.fields[0]
+        probe = args[2]
+        m1 = rule_matches(ctx, e1.fields[2], probe)
+        m2 = rule_matches(ctx, e2_.fields[2], probe)
+        return Agg("tuple", None, [SBool(True), SBool(True), e1.fields[0], e1.fields[1], e2_.fields[0], e2_.fields[1], m1, m2])
+
+    def mk(nu, k, q, mode, probe_n):
+        def setup(ctx):
+            u = [ctx.sym_char("u%d" % i, 1) for i in range(nu)]
+            for ch in u:
+                ctx.add(z3.Or([ch.z() == ord(x) for x in RT_ALPHA]))
+            mod = (" (" + k + q + ")") if (k or q) else ""
+            line = u + [SInt(ord(c), "char") for c in mod]
+            ctx.notes["line"] = line
+            probe = [ctx.sym_int("pb%d" % i, "u8") for i in range(probe_n)]
+            for b in probe:
+                ctx.add(b.z() != 10)
+            return [Str(line), Agg("Escaper", mode, []), Slice(probe + [SInt(10, "u8")], "u8")]
+        return setup
+
+    def post(ctx, args, kind, value):
+        if kind != "return":
+            return False
+        f = value.fields
+        if not f[0].v:
+            return True           # the original line does not parse: nothing to round-trip
+        if not f[1].v:
+            return False          # canonical form does not parse
+        o1, m1_, o2, m2_, a, b = f[2], f[3], f[4], f[5], f[6], f[7]
+        if o1.v != o2.v or m1_.v != m2_.v:
+            return False
+        if a.concrete and b.concrete:
+            return a.v == b.v
+        return a.z() == b.z()
+
+    def judge(a, nk, nv):
+        line, mode, probe = a[0], a[1], bytes(a[2])
+        mode_s = "ascii" if "Ascii" in str(mode) else "unicode"
+        k, v = NAT.call("expectation_roundtrip", [line, mode_s, list(probe)])
+        if k != "return":
+            return True, "canonical rendering of %r panics: %s" % (line, v), "roundtrip:panic"
+        if v.get("original_parses") and (not v.get("rendered_parses") or v.get("flags_equal") is False or v.get("same_verdict") is False):
+            return True, ("the expectation %r renders (%s) as %r, which parses to a different expectation: %s" % (line, mode_s, v.get("rendered"), v)),                 "roundtrip:%s" % ("quantifier" if v.get("flags_equal") is False else "no-parse" if not v.get("rendered_parses") else "matches-differ")
+        return False, "", ""
+    inputs = []
+    for k in ["", "equal", "no-eol", "escaped"]:
+        for q in ["", "?", "*", "+"]:
+            for nu in range(0, max_u + 1):
+                for mode in ("Unicode", "Ascii"):
+                    inputs.append(("line = u(%d) ++ (%s%s), %s" % (nu, k, q, mode), mk(nu, k, q, mode, nu)))
+    h = e2.Harness("canonical_form_roundtrip", drive_rt, inputs, post, native="expectation_roundtrip", judge=judge,
+                   describe="parse(render(parse(line))) has the same quantifier and the same verdict as parse(line) on every newline-terminated probe line",
+                   bound="lines u ++ (K Q): |u| <= %d over %r, K in {none, equal, no-eol, escaped}, all quantifiers, both escapers; probe lines of |u| bytes + newline"
+                         % (max_u, RT_ALPHA))
+    h.models_cls = GenModels
+    return h
+
+
 def run(pid, tier):
     global NAT
     rep = Report(pid, tier, "other")
@@ -273,6 +357,8 @@ def run(pid, tier):
                 rep.mismatches.append("parse(%r): interpreter %s %r != native %s %r" % (line, ik, iv, nk, nv))
     e2.process(rep, prog, NAT, h, tier, to_native_args=lambda a: [a[0]])
     rep.subclaims[-1]["concrete_validation"] = {"inputs": len(rows), "mismatches": mism, "function": "ExpectationMaker::parse"}
+    hr = h_roundtrip(2 if q else 3)
+    e2.process(rep, prog, NAT, hr, tier, to_native_args=lambda a: a)
     NAT.close()
     tot_paths = sum(s.get("paths", 0) for s in rep.subclaims)
     rep.coverage.update({
